@@ -84,7 +84,7 @@ RP0 == [ shape |-> "", sid |-> 0, cstart |-> FALSE, started |-> FALSE, startFail
          hdrSeen |-> FALSE, hdr |-> MD0, hdrMismatch |-> FALSE, hdrT |-> MD0, hasHdrT |-> FALSE, hdrTBad |-> FALSE,
          cancelled |-> FALSE, localCause |-> {},
          inv |-> 0, invShape |-> "", invMethod |-> "", invMD |-> MD0,
-         hHdr |-> MD0, hTrl |-> MD0, hRet |-> NoClose, hRetStarted |-> FALSE,
+         hHdr |-> MD0, hHdrPend |-> MD0, hHdrBusy |-> FALSE, hTrl |-> MD0, hRet |-> NoClose, hRetStarted |-> FALSE,
          hResp |-> -1,
          secondSendC |-> "none", secondSendS |-> "none",
          hdrBad |-> FALSE, hdrLate |-> FALSE, failFastBad |-> FALSE, afterDone |-> FALSE ]
@@ -127,11 +127,24 @@ QOff == q' = [q EXCEPT !.at = FALSE]
 
 Flag(cond, clause, s) == IF cond THEN {<<clause, s>>} ELSE {}
 
+\* An RPC started without any metadata carries no harness tag on the wire: it is the
+\* (lowest-numbered) such RPC whose start is in progress and whose stream id is not known yet
+Untagged(r) == /\ rp[r].cstart /\ rp[r].sid = 0 /\ ~rp[r].startFail
+               /\ \E i \in 1..Len(rp[r].opts) : rp[r].opts[i] = "nomd"
+               /\ ~\E i \in 1..Len(rp[r].opts) : rp[r].opts[i] = "creds"
+TagOf(e) == IF e.rpc # 0 THEN e.rpc
+            ELSE IF \E r \in DOMAIN rp : Untagged(r)
+                 THEN CHOOSE r \in DOMAIN rp : Untagged(r) /\ \A x \in DOMAIN rp : Untagged(x) => r <= x
+                 ELSE 0
+
 SendC2S(e, w) ==
   LET s == e.sid IN
   CASE e.kind = "new" ->
-        [ w EXCEPT !.news = @ + 1, !.rpc = e.rpc, !.rev = e.rev, !.win = e.win, !.method = e.method,
-                   !.md = e.md, !.first = IF @ = "" THEN "new" ELSE @ ]
+        [ w EXCEPT !.news = @ + 1, !.rpc = TagOf(e), !.rev = e.rev, !.win = e.win, !.method = e.method,
+                   !.md = e.md, !.first = IF @ = "" THEN "new" ELSE @,
+                   \* the RPC's context may have ended before its stream reached the wire
+                   !.cliEnd = IF @ = "" /\ TagOf(e) \in DOMAIN rp /\ rp[TagOf(e)].localCause # {}
+                              THEN (IF 1 \in rp[TagOf(e)].localCause THEN "cancel" ELSE "deadline") ELSE @ ]
     [] e.kind = "msg" ->
         [ w EXCEPT !.cOpen = e.size - e.len, !.cEnv = Append(@, e.size), !.cBytes = @ + e.len,
                    !.first = IF @ = "" THEN "msg" ELSE @ ]
@@ -203,13 +216,15 @@ BadS2C(e, w) ==
       \cup Flag(cfg.rawCli = "legacy", "legacy.settings", s)
     [] e.kind = "hdr" ->
            Flag(w.sHdr > 0, "hdr.twice", s)
-      \cup Flag(Len(w.sEnv) > 0, "hdr.after-message", s)
+      \cup Flag(Len(w.sEnv) > 0 /\ ~w.cancelDeliv, "hdr.after-message", s)
       \cup Flag(w.hEnded, "after-close", s)
     [] e.kind = "msg" ->
            Flag(w.sOpen > 0, "framing.envelope-inside-message", s)
       \cup Flag(e.len > e.size, "framing.len>size", s)
       \cup Flag(e.len > CH, "chunkmax", s)
-      \cup Flag(w.sHdr = 0, "msg.before-hdr", s)
+      \* (after the caller's cancel was delivered the stream's remaining output is discarded
+      \*  by the caller; the asynchronous close sender may then be overtaken by the handler)
+      \cup Flag(w.sHdr = 0 /\ ~w.cancelDeliv, "msg.before-hdr", s)
       \cup Flag(w.hEnded, "after-close", s)
     [] e.kind = "more" ->
            Flag(w.sOpen <= 0, "framing.continuation-without-message", s)
@@ -236,8 +251,8 @@ OWireSend(e) ==
              /\ bad' = IF RealSrv THEN bad \cup BadS2C(e, w) ELSE bad
              /\ tun' = IF e.kind = "settings" THEN [tun EXCEPT !.settingsSent = @ + 1, !.s2cSent = @ + 1]
                        ELSE [tun EXCEPT !.s2cSent = @ + 1]
-  /\ rp' = IF e.dir = "c2s" /\ e.kind = "new" /\ e.rpc # 0
-            THEN SetRP(e.rpc, [ RPof(e.rpc) EXCEPT !.sid = e.sid ]) ELSE rp
+  /\ rp' = IF e.dir = "c2s" /\ e.kind = "new" /\ TagOf(e) # 0
+            THEN SetRP(TagOf(e), [ RPof(TagOf(e)) EXCEPT !.sid = e.sid ]) ELSE rp
   /\ QOff
   /\ UNCHANGED <<cfg, now, meta>>
 
@@ -332,8 +347,8 @@ OOpStart(e) ==
             CASE e.op = "send" -> [ r EXCEPT !.sentS = Append(@, <<e.rpc, "s", e.idx, e.size>>) ]
               [] e.op = "recv" -> [ r EXCEPT !.recvS = @ + 1 ]
               [] e.op \in {"sethdr", "sendhdr"} ->
-                   \* accepted only while the headers have not been sent
-                   IF (r.sid \in DOMAIN ws => ws[r.sid].sHdr = 0) THEN [ r EXCEPT !.hHdr = MDJoin(@, e.md) ] ELSE r
+                   \* counted once (and if) the call has been accepted, see its return
+                   [ r EXCEPT !.hHdrPend = e.md, !.hHdrBusy = TRUE ]
               [] e.op = "settrl" ->
                    IF ~r.hRetStarted THEN [ r EXCEPT !.hTrl = MDJoin(@, e.md) ] ELSE r
               [] e.op = "ret" ->
@@ -398,6 +413,9 @@ OOpRet(e) ==
                    IF e.cls = "ok"
                    THEN [ r EXCEPT !.okS = @ + 1, !.secondSendS = IF second THEN "accepted" ELSE @ ]
                    ELSE [ r EXCEPT !.errS = @ + 1, !.secondSendS = IF second /\ @ = "none" THEN "refused" ELSE @ ]
+              [] e.op \in {"sethdr", "sendhdr"} ->
+                   IF e.cls = "ok" THEN [ r EXCEPT !.hHdr = MDJoin(@, r.hHdrPend), !.hHdrBusy = FALSE ]
+                   ELSE [ r EXCEPT !.hHdrBusy = FALSE ]
               [] OTHER -> r)
   /\ QOff
   /\ UNCHANGED <<cfg, ws, tun, bad, now, meta>>
@@ -458,7 +476,7 @@ OCtl(e) ==
   /\ UNCHANGED <<cfg, bad, meta>>
 
 OCar(e) ==
-  /\ tun' = IF e.what \in {"fail", "ctxdone"} THEN AddCause(tun, e.what)
+  /\ tun' = IF e.what \in {"fail", "ctxdone", "srvgone"} THEN AddCause(tun, e.what)
             ELSE IF e.what = "marshalfail" THEN [ tun EXCEPT !.marshalFail = TRUE ]
             ELSE tun
   /\ ws' = IF e.what \in {"fail", "ctxdone", "marshalfail"} THEN AllLocal("tunnel") ELSE ws
@@ -536,20 +554,20 @@ OEvent(e) ==
 (* The property formulas.  Each is a state predicate over the observation  *)
 (* state; the name prefix is the property id.                              *)
 
-RPCs == DOMAIN rp
-Sids == DOMAIN ws
+ORpcs == DOMAIN rp
+OSids == DOMAIN ws
 
 IsPfx(a, b) == Len(a) <= Len(b) /\ \A i \in 1..Len(a) : a[i] = b[i]
 
 \* ---- C01 -----------------------------------------------------------------
-C01_SrvPrefix == \A r \in RPCs : IsPfx(rp[r].gotS, rp[r].sentC)
-C01_CliPrefix == \A r \in RPCs : IsPfx(rp[r].gotC, rp[r].sentS \o
+C01_SrvPrefix == \A r \in ORpcs : IsPfx(rp[r].gotS, rp[r].sentC)
+C01_CliPrefix == \A r \in ORpcs : IsPfx(rp[r].gotC, rp[r].sentS \o
                     (IF rp[r].hResp >= 0 THEN << <<r, "s", Len(rp[r].sentS), rp[r].hResp>> >> ELSE <<>>))
-C01_Intact    == \A r \in RPCs : rp[r].intactS /\ rp[r].intactC
+C01_Intact    == \A r \in ORpcs : rp[r].intactS /\ rp[r].intactC
 \* handler saw end-of-stream => it obtained every message whose send had succeeded
-C01_CompleteAtEOF == \A r \in RPCs : rp[r].sEOF => Len(rp[r].gotS) >= rp[r].okCatEOF
+C01_CompleteAtEOF == \A r \in ORpcs : rp[r].sEOF => Len(rp[r].gotS) >= rp[r].okCatEOF
 \* caller saw OK => it obtained every message the handler sent
-C01_CompleteAtOK  == \A r \in RPCs : rp[r].cRes.cls = "eof" =>
+C01_CompleteAtOK  == \A r \in ORpcs : rp[r].cRes.cls = "eof" =>
                         Len(rp[r].gotC) = rp[r].okS + (IF rp[r].hResp >= 0 THEN 1 ELSE 0)
 
 \* ---- C13 (wire conformance) ------------------------------------------------
@@ -570,14 +588,14 @@ C06_ChunkMax == ~BadHas("chunkmax")
 \* un-credited bytes never exceed the advertised window (credit counts once it
 \* has been delivered to the sender's endpoint)
 C06_SenderWithinWindow ==
-  \A s \in Sids :
+  \A s \in OSids :
      /\ (RealCli /\ ws[s].rev = 1) => ws[s].cBytes - ws[s].sWuD <= tun.winC2S
      /\ (RealSrv /\ ws[s].rev = 1) => ws[s].sBytes - ws[s].cWuD <= ws[s].win
 \* credit granted never exceeds what was delivered, nor what the application
 \* can have consumed: it asked for at most recv (+1 look-ahead) messages
 Consumable(env, k) == SumSeq(Prefix(env, k))
 C06_CreditBounded ==
-  \A s \in Sids :
+  \A s \in OSids :
      LET r == ws[s].rpc
          R == RPof(r)
      IN /\ RealSrv => /\ ws[s].sWuSum <= ws[s].cDataSum
@@ -595,8 +613,8 @@ BlockedOps == { <<q.blocked[i][1], q.blocked[i][2], q.blocked[i][4]>> : i \in 1.
 \* at a quiescent point a blocked send means the window is exhausted (or, with
 \* a bounded carrier, that the carrier is full)
 C05_BlockedOnlyWhenFull ==
-  (q.at /\ tun.causes = {} /\ ~tun.marshalFail) => \A b \in BlockedOps :
-     (b[3] = "send" /\ b[2] \in RPCs /\ rp[b[2]].sid \in Sids) =>
+  (q.at /\ tun.causes = {} /\ ~tun.marshalFail /\ q.parked = <<>>) => \A b \in BlockedOps :
+     (b[3] = "send" /\ b[2] \in ORpcs /\ rp[b[2]].sid \in OSids) =>
         LET s == rp[b[2]].sid IN
         IF b[1] = "c"
         THEN \/ ws[s].rev = 1 /\ ws[s].cBytes - ws[s].sWuD = tun.winC2S
@@ -607,9 +625,9 @@ C05_BlockedOnlyWhenFull ==
 \* ---- C08 -------------------------------------------------------------------
 C08_IdsIncreasing == ~BadHas("ids.increasing") /\ ~BadHas("ids.dup")
 C08_NewFirst == ~BadHas("newfirst")
-C08_AtMostOneInvocation == \A r \in RPCs : rp[r].inv <= 1
+C08_AtMostOneInvocation == \A r \in ORpcs : rp[r].inv <= 1
 C08_RightHandler ==
-  \A r \in RPCs : (rp[r].inv > 0 /\ rp[r].cstart) => rp[r].invShape = rp[r].shape
+  \A r \in ORpcs : (rp[r].inv > 0 /\ rp[r].cstart) => rp[r].invShape = rp[r].shape
 
 \* ---- C11 -------------------------------------------------------------------
 C11_Revision == ~BadHas("neg.rev")
@@ -626,12 +644,12 @@ ResMatchesClose(res, c) ==
   \/ c.code = 0 /\ res.cls = "eof"
   \/ c.code # 0 /\ res.cls = "err" /\ res.code = c.code /\ res.msg = c.msg /\ res.det = c.det
 
-C02_ResultOnce == \A r \in RPCs : ~rp[r].cResMismatch
+C02_ResultOnce == \A r \in ORpcs : ~rp[r].cResMismatch
 
 \* the close frame carries what the handler returned (status and trailers), or
 \* what a server-local cause explains (cancel delivered, rejection)
 C02_CloseCarriesHandlerStatus ==
-  \A s \in Sids : (RealSrv /\ RealCli /\ ws[s].sClose >= 1 /\ ws[s].rpc \in RPCs) =>
+  \A s \in OSids : (RealSrv /\ RealCli /\ ws[s].sClose >= 1 /\ ws[s].rpc \in ORpcs) =>
      LET c == ws[s].close
          R == rp[ws[s].rpc]
      IN \/ /\ R.hRetStarted /\ c.code = R.hRet.code /\ c.msg = R.hRet.msg /\ c.det = R.hRet.det
@@ -643,27 +661,28 @@ C02_CloseCarriesHandlerStatus ==
 
 \* a caller that finished because the close frame arrived sees exactly its status
 C02_StatusExact ==
-  \A r \in RPCs : (RealSrv /\ rp[r].cRes.cls # "none" /\ rp[r].sid \in Sids /\ ~cfg.auto) =>
+  \A r \in ORpcs : (RealSrv /\ rp[r].cRes.cls # "none" /\ rp[r].sid \in OSids /\ ~cfg.auto) =>
      (ws[rp[r].sid].cliEnd = "close" => ResMatchesClose(rp[r].cRes, ws[rp[r].sid].close))
 
 \* ... and its trailers, as soon as the terminal result has been returned
 C02_TrailersAtTerminal ==
-  \A r \in RPCs : (RealSrv /\ rp[r].trlSeen /\ rp[r].sid \in Sids /\ ~cfg.auto /\ ws[rp[r].sid].cliEnd = "close") =>
+  \A r \in ORpcs : (RealSrv /\ rp[r].trlSeen /\ rp[r].sid \in OSids /\ ~cfg.auto /\ ws[rp[r].sid].cliEnd = "close") =>
      /\ MDEq(rp[r].trl, ws[rp[r].sid].close.md)
      /\ rp[r].hasTrlT => MDEq(rp[r].trlT, ws[rp[r].sid].close.md)
 
 \* the header frame carries exactly what the handler set before it was sent;
 \* the caller reads exactly the delivered header frame
 C02_HeadersExact ==
-  /\ \A s \in Sids : (RealSrv /\ ws[s].sHdr >= 1 /\ ws[s].rpc \in RPCs) => MDEq(ws[s].sHdrMD, rp[ws[s].rpc].hHdr)
-  /\ \A r \in RPCs : ~rp[r].hdrBad /\ ~rp[r].hdrMismatch /\ ~rp[r].hdrTBad
+  /\ \A s \in OSids : (RealSrv /\ ws[s].sHdr >= 1 /\ ws[s].rpc \in ORpcs /\ ~rp[ws[s].rpc].hHdrBusy) =>
+        MDEq(ws[s].sHdrMD, rp[ws[s].rpc].hHdr)
+  /\ \A r \in ORpcs : ~rp[r].hdrBad /\ ~rp[r].hdrMismatch /\ ~rp[r].hdrTBad
 C02_HeadersByFirstMsg ==
-  /\ \A r \in RPCs : ~rp[r].hdrLate
-  /\ q.at => \A b \in BlockedOps : (b[3] = "header" /\ b[2] \in RPCs /\ rp[b[2]].sid \in Sids) => ~ws[rp[b[2]].sid].hdrDeliv
+  /\ \A r \in ORpcs : ~rp[r].hdrLate
+  /\ q.at => \A b \in BlockedOps : (b[3] = "header" /\ b[2] \in ORpcs /\ rp[b[2]].sid \in OSids) => ~ws[rp[b[2]].sid].hdrDeliv
 \* every metadata value the scenarios use is legal gRPC metadata (binary values
 \* under "-bin" keys included): none may be refused as unencodable
 C02_EncodableMetadata == ~tun.marshalFail
-C02_RequestMD == \A r \in RPCs : (rp[r].inv > 0 /\ rp[r].cstart /\ RealCli) => MDEq(rp[r].invMD, rp[r].mdSent)
+C02_RequestMD == \A r \in ORpcs : (rp[r].inv > 0 /\ rp[r].cstart /\ RealCli) => MDEq(rp[r].invMD, rp[r].mdSent)
 
 \* ---- C07 -------------------------------------------------------------------
 \* a terminal result is the handler's (via the close frame) or one that a local
@@ -671,70 +690,75 @@ C02_RequestMD == \A r \in RPCs : (rp[r].inv > 0 /\ rp[r].cstart /\ RealCli) => M
 LocalOK(r, res) ==
   \/ 1 \in rp[r].localCause /\ res.cls = "err" /\ res.code = 1
   \/ 4 \in rp[r].localCause /\ res.cls = "err" /\ res.code = 4
-  \/ rp[r].sid \in Sids /\ ws[rp[r].sid].cliEnd = "tunnel" /\ res.cls = "err"
+  \/ rp[r].sid \in OSids /\ ws[rp[r].sid].cliEnd = "tunnel" /\ res.cls = "err"
   \/ (tun.causes # {} \/ tun.marshalFail \/ tun.chdone) /\ res.cls = "err"
 C07_OneLegalOutcome ==
-  \A r \in RPCs : (RealSrv /\ rp[r].cRes.cls # "none") =>
-     \/ rp[r].sid \in Sids /\ ws[rp[r].sid].closeDeliv /\ ResMatchesClose(rp[r].cRes, ws[rp[r].sid].close)
+  \A r \in ORpcs : (RealSrv /\ rp[r].cRes.cls # "none") =>
+     \/ rp[r].sid \in OSids /\ ws[rp[r].sid].closeDeliv /\ ResMatchesClose(rp[r].cRes, ws[rp[r].sid].close)
      \/ LocalOK(r, rp[r].cRes)
 \* cancelled / expired at the caller: no caller op of that RPC stays blocked
 C07_CallerEndsAlone ==
-  q.at => \A b \in BlockedOps : (b[1] = "c" /\ b[2] \in RPCs) => rp[b[2]].localCause = {}
+  (q.at /\ q.parked = <<>>) => \A b \in BlockedOps : (b[1] = "c" /\ b[2] \in ORpcs) => rp[b[2]].localCause = {}
 \* once the cancel notice was delivered the handler's context is done and none
 \* of its ops stays blocked
 HandlerCtxDone(r) == \E i \in 1..Len(q.h) : q.h[i][1] = r /\ q.h[i][2] = 1
 HandlerLive(r) == \E i \in 1..Len(q.h) : q.h[i][1] = r
 C07_HandlerReleased ==
-  (q.at /\ q.parked = <<>>) => \A s \in Sids : (ws[s].cancelDeliv /\ ws[s].rpc # 0) =>
+  (q.at /\ q.parked = <<>>) => \A s \in OSids : (ws[s].cancelDeliv /\ ws[s].rpc # 0) =>
      /\ HandlerLive(ws[s].rpc) => HandlerCtxDone(ws[s].rpc)
      /\ \A b \in BlockedOps : ~(b[1] = "s" /\ b[2] = ws[s].rpc)
 
 \* ---- C04 -------------------------------------------------------------------
-RealCause == tun.causes \cap {"close", "ctxcancel", "fail", "ctxdone", "stop", "teardown"} # {}
+RealCause == tun.causes \cap {"close", "ctxcancel", "fail", "ctxdone", "stop", "teardown", "srvgone"} # {}
 QuietWire == q.qc2s = 0 /\ q.qs2c = 0
 C04_CallsEnd == (q.at /\ q.chdone) => \A b \in BlockedOps : b[1] # "c"
 C04_HandlersReleased ==
   (q.at /\ tun.serveRet /\ q.parked = <<>>) =>
      /\ \A i \in 1..Len(q.h) : q.h[i][2] = 1
      /\ \A b \in BlockedOps : b[1] # "s"
-C04_ClientObserves == (q.at /\ RealCause /\ QuietWire /\ tun.opened /\ RealCli /\ q.parked = <<>>) => (q.chdone \/ tun.startFail)
-C04_ServerObserves == (q.at /\ RealCause /\ QuietWire /\ tun.opened /\ RealSrv /\ q.parked = <<>>) => tun.serveRet
+C04_ClientObserves == (q.at /\ FCExpected /\ RealCause /\ QuietWire /\ tun.opened /\ RealCli /\ q.parked = <<>>) => (q.chdone \/ tun.startFail)
+C04_ServerObserves == (q.at /\ FCExpected /\ RealCause /\ QuietWire /\ tun.opened /\ RealSrv /\ q.parked = <<>>) => tun.serveRet
 C04_ErrNilIffClean ==
   (tun.chdone /\ tun.firstCause # "" /\ RealSrv) => ((tun.chErr = "ok") <=> (tun.firstCause \in {"close", "stop"}))
-C04_FailFast == \A r \in RPCs : ~rp[r].failFastBad
+C04_FailFast == \A r \in ORpcs : ~rp[r].failFastBad
 
 \* ---- C03 -------------------------------------------------------------------
-\* RPCs the generator expects to complete (their peers keep reading, no fault of
+\* ORpcs the generator expects to complete (their peers keep reading, no fault of
 \* their own, no tunnel-level cause) have completed when the run is drained
 DoneSet == { meta.done[i] : i \in 1..Len(meta.done) }
 C03_BystandersComplete ==
   (tun.teardown /\ tun.doneAtTeardown) =>
      \A r \in DoneSet :
         /\ \A i \in 1..Len(tun.lastBlocked) : tun.lastBlocked[i][2] # r
-        /\ r \in RPCs /\ rp[r].cRes.cls # "none"
+        /\ r \in ORpcs /\ rp[r].cRes.cls # "none"
 
 \* ---- C14 -------------------------------------------------------------------
-CliLive == { s \in Sids : ws[s].news > 0 /\ ws[s].cliEnd = "" }
-SrvLive == { r \in RPCs : rp[r].inv > 0 /\ ~rp[r].hRetStarted /\ ~(rp[r].sid \in Sids /\ (ws[rp[r].sid].cancelDeliv \/ ws[rp[r].sid].sViolD)) }
-SrvMaybe == { r \in RPCs : rp[r].inv > 0 /\ rp[r].hRetStarted /\ rp[r].shape = "unary"
-                           /\ rp[r].sid \in Sids /\ ws[rp[r].sid].sClose = 0 /\ ~ws[rp[r].sid].cancelDeliv }
+CliLive == { s \in OSids : ws[s].news > 0 /\ ws[s].cliEnd = "" }
+SrvLive == { r \in ORpcs : rp[r].inv > 0 /\ ~rp[r].hRetStarted /\ ~(rp[r].sid \in OSids /\ (ws[rp[r].sid].cancelDeliv \/ ws[rp[r].sid].sViolD)) }
+SrvMaybe == { r \in ORpcs : rp[r].inv > 0 /\ rp[r].hRetStarted /\ rp[r].shape = "unary"
+                           /\ rp[r].sid \in OSids /\ ws[rp[r].sid].sClose = 0 /\ ~ws[rp[r].sid].cancelDeliv }
+\* (with revision zero the receive loops can be blocked handing a frame to a consumer that does
+\*  not read - head-of-line blocking by design - which delays every clean-up behind it; there the
+\*  tables are only required to be empty once the tunnel is gone, C14_NothingAfterTunnel)
 C14_ClientTableExact ==
-  (q.at /\ q.ctab >= 0 /\ q.parked = <<>> /\ RealSrv /\ cfg.cap = 0) =>
+  (q.at /\ q.ctab >= 0 /\ q.parked = <<>> /\ RealSrv /\ cfg.cap = 0 /\ FCExpected) =>
      q.ctab = (IF q.chdone THEN 0 ELSE Cardinality(CliLive))
 C14_ServerTableExact ==
-  (q.at /\ q.parked = <<>> /\ RealCli /\ cfg.cap = 0) =>
+  (q.at /\ q.parked = <<>> /\ RealCli /\ cfg.cap = 0 /\ FCExpected) =>
      IF q.nsrv = 0 THEN q.stab = 0
      ELSE Cardinality(SrvLive) <= q.stab /\ q.stab <= Cardinality(SrvLive) + Cardinality(SrvMaybe)
+\* whenever no RPC is in flight on either end, no more library goroutines exist than right
+\* after the tunnel was opened (whatever happened in between)
 C14_GoroutinesBaseline ==
-  (q.at /\ q.g >= 0 /\ tun.baseG >= 0 /\ q.ctab = 0 /\ q.stab = 0 /\ q.h = <<>> /\ q.blocked = <<>>
-        /\ QuietWire /\ ~q.chdone /\ q.parked = <<>> /\ tun.causes = {} /\ ~tun.marshalFail) => q.g = tun.baseG
+  (q.at /\ q.g >= 0 /\ tun.baseG >= 0 /\ q.ctab <= 0 /\ q.stab = 0 /\ q.h = <<>> /\ q.blocked = <<>>
+        /\ q.parked = <<>>) => q.g <= tun.baseG
 C14_NothingAfterTunnel ==
   (q.at /\ q.final) => q.g = 0 /\ q.ctab <= 0 /\ q.stab = 0 /\ q.nsrv = 0
 
 \* ---- C10 -------------------------------------------------------------------
 C10_RefusedAfterShutdown ==
-  \A s \in Sids : (ws[s].newAfterShutdown /\ RealSrv) =>
-     /\ ws[s].rpc \in RPCs => rp[ws[s].rpc].inv = 0
+  \A s \in OSids : (ws[s].newAfterShutdown /\ RealSrv) =>
+     /\ ws[s].rpc \in ORpcs => rp[ws[s].rpc].inv = 0
      /\ ws[s].sClose >= 1 => ws[s].close.code = 14
 C10_GracefulStopReturns ==
   (q.at /\ tun.shutdown /\ cfg.dir = "rev" /\ q.h = <<>> /\ q.stab = 0 /\ QuietWire /\ q.blocked = <<>> /\ RealSrv)
@@ -744,18 +768,18 @@ C10_StopMeansStopped ==
 
 \* ---- C16 -------------------------------------------------------------------
 C16_SecondSendRefused ==
-  /\ \A r \in RPCs : rp[r].secondSendC # "accepted" /\ rp[r].secondSendS # "accepted"
-  /\ \A s \in Sids : (ws[s].rpc \in RPCs) =>
+  /\ \A r \in ORpcs : rp[r].secondSendC # "accepted" /\ rp[r].secondSendS # "accepted"
+  /\ \A s \in OSids : (ws[s].rpc \in ORpcs) =>
         /\ (RealCli /\ rp[ws[s].rpc].shape \in {"unary", "sstream"}) => Len(ws[s].cEnv) <= 1
         /\ (RealSrv /\ rp[ws[s].rpc].invShape \in {"unary", "cstream"}) => Len(ws[s].sEnv) <= 1
-C16_OneRequestOnly == \A r \in RPCs : rp[r].invShape \in {"unary", "sstream"} => Len(rp[r].gotS) <= 1
+C16_OneRequestOnly == \A r \in ORpcs : rp[r].invShape \in {"unary", "sstream"} => Len(rp[r].gotS) <= 1
 C16_NoSuccessOnWrongCount ==
-  \A r \in RPCs : (rp[r].shape \in {"unary", "cstream"} /\ Len(rp[r].gotC) >= 1 /\ rp[r].sid \in Sids) =>
+  \A r \in ORpcs : (rp[r].shape \in {"unary", "cstream"} /\ Len(rp[r].gotC) >= 1 /\ rp[r].sid \in OSids) =>
      LET w == ws[rp[r].sid] IN w.sMsgsD = 1 /\ w.closeDeliv /\ w.close.code = 0
 
 \* ---- C08 (completion) -----------------------------------------------------
 C08_ExactlyOneWhenCompleted ==
-  \A r \in RPCs : (RealSrv /\ RealCli /\ rp[r].cRes.cls # "none" /\ rp[r].sid \in Sids /\ ws[rp[r].sid].cliEnd = "close") =>
+  \A r \in ORpcs : (RealSrv /\ RealCli /\ rp[r].cRes.cls # "none" /\ rp[r].sid \in OSids /\ ws[rp[r].sid].cliEnd = "close") =>
      \/ rp[r].inv = 1
      \/ rp[r].inv = 0 /\ ws[rp[r].sid].close.code \in {3, 12, 14}
 
